@@ -64,7 +64,10 @@ EXPLANATION = ("CORE (partial): abstract, dimension-generic theorem about one in
                "Dirichlet reconstruction exact; eliminated Neumann rows are consistent iff casym(A) n = 0, which is why the property restricts the "
                "Neumann sets) + executable per-region check over Q + oracle on the real matrices. The assembly of the regions by the vectorised code "
                "and the inversion are bridged by the correspondence check, not proved.")
-ASSUMPTIONS = ["each local system is uniquely solvable (hypothesis Unisolvent of the exactness theorems; observed on the real code)",
+ASSUMPTIONS = ["each local system is uniquely solvable (hypothesis Unisolvent of the exactness theorems; observed on the real code). Grids on which "
+               "the MODEL's local matrix of some node, assembled by the harness from geometry alone, has condition number > 1e7 are outside the "
+               "claim (MPSA is undefined there; example: corpus/C13/07-*.json, Mpsa.discretize raises on it) - the generator redraws them and "
+               "the oracle makes no claim on them",
                "boundary sets are admissible in the sense of the property statement (generator enforces it, oracle re-checks it)"]
 
 _CACHE = {}
@@ -216,6 +219,8 @@ def gen_case(rng, tier):
     if dim == 3:
         k = 4 if not big else 8
         case["tie_nodes"] = sorted(rng.sample(range(g.num_nodes), min(k, g.num_nodes)))
+    if degenerate(case):  # a local system of the model itself is singular: no claim (hypothesis Unisolvent); draw another case
+        return gen_case(rng, tier)
     return case
 
 
@@ -296,6 +301,14 @@ def oracle(case):
     if not admissible(g, case["neu"]):
         return None  # the property makes no claim for this boundary set
     cls = f"{d}d-{case['grid']['kind']}-{'alldir' if not case['neu'] else 'mixed'}"
+    r = _oracle_checks(case, s, cls)
+    if r is not None and degenerate(case):
+        return None  # the model's own local system is singular here (Unisolvent fails): the property makes no claim
+    return r
+
+
+def _oracle_checks(case, s, cls):
+    g, d = s["g"], s["d"]
     try:
         M = _discretize(s, case)
     except Exception as e:
@@ -347,6 +360,85 @@ def _internals(s, case):
     rhs_bound = discr._create_bound_rhs(bsub, be, st, sd, False)
     hf2f = _fvutils.map_hf_2_f(st.fno_unique, st.subfno_unique, d)
     return dict(sd=sd, st=st, hook=hook, igrad=igrad, cnb=cnb, rhs_cells=rhs_cells, rhs_bound=rhs_bound, hf2f=hf2f, eta=eta)
+
+
+def _topology(s):
+    """Sub-cell topology only (nothing is discretised or inverted here)."""
+    import porepy as pp
+    from porepy.numerics.fv import _fvutils
+
+    g, d = s["g"], s["d"]
+    eta = s["eta"] if s["eta"] is not None else _fvutils.determine_eta(g)
+    sd = pp.Mpsa("mechanics")._reduce_grid_constit_2d(g, s["C"])[0] if d == 2 else g
+    st = _fvutils.SubcellTopology(sd)
+    cnb, _ = pp.matrix_operations.rlencode(np.vstack((st.cno, st.nno)))
+    return dict(sd=sd, st=st, cnb=cnb, eta=eta)
+
+
+def _local_matrix(R, lam, mu, d):
+    """Matrix of the MODEL's local system of a region (unknowns: sub-cell gradients), assembled by the harness from
+    the region data - independent of the code under test.  Rows scaled by their absolute sum, as the code does."""
+    m = len(R["cells"])
+    CS = np.zeros((d, d, d, d))
+    CA = np.zeros((d, d, d, d))
+    for a in range(d):
+        for b in range(d):
+            if a == b:
+                for p in range(d):
+                    CS[a, a, p, p] += lam
+                CS[a, a, a, a] += 2 * mu
+            else:
+                CS[a, b, a, b] = mu
+                CA[a, b, b, a] = mu
+    w = np.array(R["vol"]) / sum(R["vol"])
+    rows = []
+    for r in R["rows"]:
+        blk = np.zeros((d, m, d, d))
+        if r["t"] == "tc":
+            t = np.einsum("abpq,b->apq", CS, r["n"])
+            blk[:, r["i"]] += t
+            blk[:, r["j"]] -= t
+        elif r["t"] == "dc":
+            for a in range(d):
+                blk[a, r["i"], a, :] += r["xs"] - R["xc"][r["i"]]
+                blk[a, r["j"], a, :] -= r["xs"] - R["xc"][r["j"]]
+        elif r["t"] == "dir":
+            for a in range(d):
+                blk[a, r["i"], a, :] += r["xs"] - R["xc"][r["i"]]
+        else:
+            blk[:, r["i"]] += np.einsum("abpq,b->apq", CS, r["n"])
+            if not r["elim"]:
+                ta = np.einsum("abpq,b->apq", CA, r["n"])
+                for k in range(m):
+                    blk[:, k] += w[k] * ta
+        rows.append(blk.reshape(d, m * d * d))
+    M = np.vstack(rows) if rows else np.zeros((0, m * d * d))
+    sc = np.abs(M).sum(axis=1)
+    return M / np.where(sc > 0, sc, 1.0)[:, None]
+
+
+COND_MAX = 1e7
+_DEGENERATE = {}
+
+
+def degenerate(case):
+    """True iff some interaction region of the MODEL is not (numerically) uniquely solvable: the hypothesis `Unisolvent`
+    of the exactness theorems fails and MPSA itself is undefined there (e.g. Delaunay grids where the centres of the two
+    cells at a corner are collinear with the two boundary face centres).  Decided from geometry and boundary types only."""
+    key = json.dumps({k: case[k] for k in ("grid", "neu", "eta", "lam", "mu")}, sort_keys=True)
+    if key not in _DEGENERATE:
+        s = _setup(case)
+        T = _topology(s)
+        worst = 0.0
+        for R in _regions(s, T, range(s["g"].num_nodes)):
+            M = _local_matrix(R, s["lam"], s["mu"], s["d"])
+            if M.shape[0] < M.shape[1]:
+                worst = float("inf")
+                break
+            sv = np.linalg.svd(M, compute_uv=False)
+            worst = max(worst, float(sv[0] / sv[-1]) if sv[-1] > 0 else float("inf"))
+        _DEGENERATE[key] = worst > COND_MAX
+    return _DEGENERATE[key]
 
 
 def _regions(s, I, nodes):
@@ -420,6 +512,8 @@ def _fl(v):
 
 def model_ops(case):
     try:
+        if degenerate(case):
+            return []
         P = _prepare(case)
     except Exception:
         return []
@@ -480,6 +574,8 @@ def impl_run(case):
 
 def model_decode(outs, case):
     try:
+        if degenerate(case):
+            return {"degenerate": True}
         P = _prepare(case)
     except Exception as e:
         return {"prepare_failed": f"{type(e).__name__}: {e}"}
@@ -510,6 +606,8 @@ def model_decode(outs, case):
 def compare(impl, model, case):
     from harness.common import deep_compare
 
+    if degenerate(case):
+        return None
     if "harness_exc" in impl:
         return "real code raised while extracting the local systems: " + impl["harness_exc"]
     return deep_compare(impl, model, tol=TOL)
@@ -576,6 +674,7 @@ def stats(cases, impl_outs):
     bcs = Counter("alldir" if not c["neu"] else "mixed" for c in cases)
     regs = [r for o in impl_outs if isinstance(o, dict) and "regions" in o for r in o["regions"]]
     return {"grids": dict(kinds), "fields": dict(fields), "boundary": dict(bcs),
+            "no_claim_singular_local_system": sum(1 for c in cases if degenerate(c)),
             "perturbed": sum(1 for c in cases if c["grid"].get("pert", "0") != "0"),
             "eta_nondefault": sum(1 for c in cases if c.get("eta") is not None),
             "numba_inverter": sum(1 for c in cases if c.get("inverter") == "numba"),
